@@ -124,4 +124,4 @@ def main(tier, seed):
 
 
 def replay(path):
-    return deps_run.replay(path, ("edges",))
+    return deps_run.replay(path)
